@@ -31,6 +31,19 @@ CLAIMED = {
         "technique": "Coq proof (lookup/association-list lemmas, sorted-union lemmas) + differential correspondence by vm_compute",
         "design_ref": "DESIGN.md section 4, C02",
     },
+    "C03": {
+        "level": "proof",
+        "text": "DataFrame rows are proved (for every shuffle permutation) to pair each setting with its own outputs, "
+                "over the data flow of combo_runner_core regenerated from the source by abstract interpretation "
+                "(which list is run, the un-shuffle, which list becomes info['settings']); Dataset description: dims = "
+                "swept arguments followed by declared internal dims, coordinates = swept values, label-wise selection = "
+                "the function's value, constants as coordinate iff they name a dimension, resources never recorded. "
+                "Differential execution through every entry point (functions, Runner, label) with an independent oracle.",
+        "note": "Trusted: Coq kernel; gen_runner translator; hand model Model/Label.v validated by correspondence; "
+                "xarray / pandas construction and multi_concat are library behaviour (oracle-tested). No axioms.",
+        "technique": "Coq proof over a translator-regenerated data flow + hand model of labelling + differential correspondence",
+        "design_ref": "DESIGN.md section 4, C03",
+    },
     "C04": {
         "level": "proof",
         "text": "Coq theorem C04_roundtrip: for every sweep, batch size or count, shuffle permutation and grow history "
